@@ -6,11 +6,13 @@ package podgroup
 import (
 	"reflect"
 
+	"k8s.io/apimachinery/pkg/api/equality"
+
 	enginev2alpha2 "github.com/NVIDIA/KAI-scheduler/pkg/apis/scheduling/v2alpha2"
 )
 
 func podGroupsEqual(oldPodGroup, newPodGroup *enginev2alpha2.PodGroup) bool {
-	return reflect.DeepEqual(oldPodGroup.Spec, newPodGroup.Spec) &&
+	return equality.Semantic.DeepEqual(oldPodGroup.Spec, newPodGroup.Spec) &&
 		reflect.DeepEqual(oldPodGroup.OwnerReferences, newPodGroup.OwnerReferences) &&
 		mapsEqualBySourceKeys(newPodGroup.Labels, oldPodGroup.Labels) &&
 		mapsEqualBySourceKeys(newPodGroup.Annotations, oldPodGroup.Annotations)
